@@ -179,6 +179,14 @@ func (e *SendSideBWE) AddStream(info *interceptor.StreamInfo, writer interceptor
 	return e.pacer
 }
 
+// RemoveStream removes a stream from the bandwidth estimator: the pacer drops
+// the writer of the stream, if it supports that.
+func (e *SendSideBWE) RemoveStream(ssrc uint32) {
+	if r, ok := e.pacer.(interface{ RemoveStream(ssrc uint32) }); ok {
+		r.RemoveStream(ssrc)
+	}
+}
+
 // WriteRTCP adds some RTCP feedback to the bandwidth estimator.
 //
 //nolint:cyclop
